@@ -361,7 +361,9 @@ def run(ctx):
                        'reassigned in place equal those of a freshly built segment (whatever memo the class keeps, however it is keyed)', 12)
     for cname in ('Line', 'QuadraticBezier', 'CubicBezier'):
         cls = mdl.cls('path.' + cname)
-        for obs in ('bpoints', 'poly', 'point', 'derivative', 'bbox', '__hash__'):      # length(): R16.3
+        if 'length' in cls.methods:
+            _length_history(ctx, mdl, cname)
+        for obs in ('bpoints', 'poly', 'point', 'derivative', 'bbox', '__hash__'):      # length(): R16.3 and the concrete history above
             if obs in cls.methods:
                 r = _history_equals_fresh(ctx, mdl, cname, cls.methods[obs], 'R16.11')
                 if r is None:
@@ -1251,6 +1253,45 @@ def _history_equals_fresh(ctx, mdl, cname, fi, rule, record=True):
         ctx.record(rule, 'path.%s.%s' % (cname, fi.name), 'query, reassign a control point, query again == fresh segment', verdict,
                    detail='; '.join(details[:2]), where=where(fi))
     return verdict
+
+
+def _length_history(ctx, mdl, cname):
+    """measure, reassign one control point in place, measure again == a freshly built segment; concrete control points in general
+    position, hash() adversarial (a cache keyed on a hash cannot tell two states apart), the cache filled by the code itself -
+    whatever it is called and however it is keyed."""
+    cls = mdl.cls('path.' + cname)
+    fi = cls.methods['length']
+    fields = cls.method('__init__').params()[1:]
+    n = len(fields)
+    P = [Rat.const(z) for z in (0, 1 + 2j, 3 - 1j, 5 + 1j)][:n - 1] + [Rat.const(7 + 3j)]
+    NEW = Rat.const(-2 + 9j)
+    bad = []
+    und = None
+    for k, field in enumerate(fields):
+        for args in ((), (0, 1), (1, 0)):
+            def th(it, k=k, field=field, args=args):
+                seg = it.construct('path.' + cname, *P)
+                it.call_method(seg, 'length', *args)
+                it.setattr(seg, field, NEW)
+                fresh = it.construct('path.' + cname, *[NEW if j == k else P[j] for j in range(n)])
+                return it.call_method(seg, 'length', *args), it.call_method(fresh, 'length', *args)
+            seglen = lambda it, a_, k_: Rat.sym('SEGLEN') + to_rat(it.call_method(a_[0], 'point', Rat.const(Fr(1, 3)))).real() + \
+                to_rat(a_[1] if len(a_) > 1 else k_.get('t0', 0)) * 7 + to_rat(a_[2] if len(a_) > 2 else k_.get('t1', 1)) * 11
+            try:
+                paths = explore(mdl, th, {'globals': {('*', '_quad_available'): False}, 'call_hooks': {'path.segment_length': seglen},
+                                          'ext_hooks': {'builtins.hash': lambda it, a_, k_: 7}})
+            except Undecidable as e:
+                und = str(e)
+                continue
+            for pth in paths:
+                if pth.raised is None and not _struct_equal(*pth.value):
+                    bad.append('length%r; seg.%s = z; length%r still answers for the old control points' % (tuple(args), field, tuple(args)))
+                    break
+    label = 'measure, reassign a control point, measure again == fresh segment (hash adversarial)'
+    if und and not bad:
+        ctx.undecided('R16.11', fi.qualname, label, und, where=where(fi))
+    else:
+        ctx.record('R16.11', fi.qualname, label, not bad, detail='; '.join(bad[:3]), where=where(fi))
 
 
 def _copy_inherits_no_stale_cache(ctx, mdl, cname, fi):
